@@ -30,6 +30,42 @@ pub fn mk(k: usize, rank: &[usize], kcount: usize, norm: bool) -> OligoComputer 
     }
 }
 
+/// The computer built by the REAL public constructor `OligoComputer::new` (+ set_norm).  Under
+/// Kani `rayon::current_num_threads` is stubbed (-> 1) and `KmerGenerator::kmer_pos_maps` is
+/// stubbed by the native tables of this tree (k <= 3: the map model holds 32 entries; C03
+/// decides those tables).  Native replays run the real constructor without any stub.
+pub fn mk_new(k: usize, norm: bool) -> OligoComputer {
+    let mut oc = OligoComputer::new(String::new(), String::new(), k);
+    oc.set_norm(norm);
+    oc
+}
+
+#[cfg(kani)]
+pub fn one_thread() -> usize {
+    1
+}
+
+#[cfg(kani)]
+pub fn tables_stub<'a>(ksize: usize) -> (Vec<usize>, HashMap<usize, u64>, usize)
+where
+    'a: 'a, // early-bound, like the impl lifetime of KmerGenerator<'a> (Kani compares generic counts)
+{
+    let (rank, inv, count): (&[usize], &[u64], usize) = match ksize {
+        1 => (&RANK_K1, &INV_K1, COUNT_K1),
+        2 => (&RANK_K2, &INV_K2, COUNT_K2),
+        _ => (&RANK_K3, &INV_K3, COUNT_K3),
+    };
+    let mut m = HashMap::new();
+    let mut p = 0;
+    while p < inv.len() {
+        if inv[p] != u64::MAX {
+            m.insert(p, inv[p]);
+        }
+        p += 1;
+    }
+    (rank.to_vec(), m, count)
+}
+
 /// public window onto the private vectorise_one (used by the C12/C13 differentials)
 pub fn vec_one(oc: &OligoComputer, seq: &[u8]) -> Vec<f64> {
     oc.vectorise_one(seq)
@@ -62,7 +98,8 @@ pub fn c04_counts<const K: usize, const N: usize, const NORM: bool>(rank: &[usiz
     let len = any_usize();
     assume(len <= N);
     let s = &seq[..len];
-    let oc = mk(K, rank, kcount, NORM);
+    // k <= 3: real constructor; larger k: struct built directly from the native table (the map model is too small)
+    let oc = if K <= 3 { mk_new(K, NORM) } else { mk(K, rank, kcount, NORM) };
     let v = oc.vectorise_one(s);
     check!(v.len() == kcount, "C04: row does not have one value per canonical k-mer column");
     check!(kcount == expected_count(K), "C04: column count is not the number of canonical k-mers");
@@ -122,7 +159,7 @@ pub fn c04_invariance<const K: usize, const N: usize, const MODE: u8>(rank: &[us
         }
         i += 1;
     }
-    let oc = mk(K, rank, kcount, norm);
+    let oc = if K <= 3 { mk_new(K, norm) } else { mk(K, rank, kcount, norm) };
     let v1 = oc.vectorise_one(&seq[..len]);
     let v2 = oc.vectorise_one(&other[..len]);
     check!(v1.len() == v2.len(), "C04: rows of a record and its transform differ in length");
